@@ -1,0 +1,64 @@
+//! Verification hooks, compiled only with `--cfg rustls_rcgen_verif`.
+//!
+//! They make the one source of run-to-run nondeterminism inside the crate (the iteration order of
+//! the hash map behind [`DistinguishedName`](crate::DistinguishedName)) controllable and observable
+//! by an external model checker. Nothing here is part of the public API.
+
+use std::cell::Cell;
+use std::hash::{BuildHasher, Hasher};
+
+use crate::{DistinguishedName, DnType};
+
+thread_local! {
+	static SEED: Cell<u64> = const { Cell::new(0) };
+}
+
+/// Set the seed that newly constructed distinguished names on this thread hash with.
+pub fn set_seed(seed: u64) {
+	SEED.with(|s| s.set(seed));
+}
+
+/// A `BuildHasher` whose seed is read from the thread-local at construction time.
+#[derive(Clone, Debug)]
+pub struct SeededState(u64);
+
+impl Default for SeededState {
+	fn default() -> Self {
+		SeededState(SEED.with(|s| s.get()))
+	}
+}
+
+impl BuildHasher for SeededState {
+	type Hasher = SeededHasher;
+
+	fn build_hasher(&self) -> SeededHasher {
+		SeededHasher(self.0 ^ 0xcbf2_9ce4_8422_2325)
+	}
+}
+
+/// FNV-1a with a seed and a final avalanche step.
+pub struct SeededHasher(u64);
+
+impl Hasher for SeededHasher {
+	fn write(&mut self, bytes: &[u8]) {
+		for b in bytes {
+			self.0 ^= u64::from(*b);
+			self.0 = self.0.wrapping_mul(0x0000_0100_0000_01b3);
+		}
+	}
+
+	fn finish(&self) -> u64 {
+		let mut x = self.0;
+		x ^= x >> 33;
+		x = x.wrapping_mul(0xff51_afd7_ed55_8ccd);
+		x ^= x >> 33;
+		x
+	}
+}
+
+impl DistinguishedName {
+	/// The internal state: the order list and the hash map's own iteration order.
+	pub fn __verif_state(&self) -> (Vec<DnType>, Vec<DnType>) {
+		(self.order.clone(), self.entries.keys().cloned().collect())
+	}
+}
